@@ -33,7 +33,7 @@ ASSUMPTIONS = ["grid gaps shorter than the roll window (expiry - last trading da
                "chain spans cover the process clock (K3 is reported under C10 only)"]
 REQUIRED = ["C11:lead-resolution", "C11:never-past-last-trading", "C11:monotone", "C11:others-flat", "C11:not-held-at-expiry",
             "C11:roll-closes-old-lead", "C11:new-lead-at-own-quotes"]
-REQUIRED_CATS = ["market-data-keyed-by-chain", "resolution:explicit-unsorted-list", "roll-inside-latency-window", "rolling:ES", "rolling:NK", "rolling:VX", "rolling:ZN", "rolled-while-holding"]
+REQUIRED_CATS = ["another-chain-environment-later-in-time", "market-data-keyed-by-chain", "resolution:explicit-unsorted-list", "roll-inside-latency-window", "rolling:ES", "rolling:NK", "rolling:VX", "rolling:ZN", "rolled-while-holding"]
 REQUIRED_HITS = ["Broker.transact", "Broker.rebalance"]
 TECHNIQUE = "runtime monitoring: complete enumeration of roll instants against a linear-scan reference; holdings invariants after every step of rolling episodes"
 LEVEL_TEXT = ("Roll instants of every built-in class are enumerated completely per decade (exact instant and +-1us) against an "
@@ -162,6 +162,25 @@ def case(ctx, i, tier):
     env = TradingEnv(action_space=BoxPortfolio(cs, -2, 2, margin=thr), transmitter=tr, state=ep.Rec(sink), broker_fees=fees,
                      initial_cash=1e7, latency=latency)
     sink.env = env
+    other = None
+    if not intraday and rng.random() < 0.3:
+        # ANOTHER environment trading a chain of the same family lives in the process, LATER in simulated time
+        # (the contract clock is process-wide), and is stepped in between the steps of the one under test
+        ch2 = FutureChain(cls, "%d-01" % sy, "%d-12" % (sy + 3), month=month)
+        shift = timedelta(days=rng.choice([95, 190, 400]))
+        grid2 = [g + shift for g in grid if g + shift < datetime(sy + 3, 6, 1)]
+        if len(grid2) >= 3:
+            evs2 = []
+            for c in ch2.contracts:
+                for t in grid2:
+                    if pydt(c.expiry) - timedelta(days=500) < t < pydt(c.expiry):
+                        evs2.append(EventNBBO(t, c, 100.0, 100.0))
+            tr2 = Transmitter(grid2)
+            tr2.add_events(evs2)
+            other = TradingEnv(action_space=BoxPortfolio([ch2], -2, 2), transmitter=tr2, initial_cash=1e7)
+            other.reset()
+            other_done = False
+            ctx.cat("another-chain-environment-later-in-time")
     quotes = {}
     cursor = [0]
     rolls_holding = 0
@@ -175,6 +194,8 @@ def case(ctx, i, tier):
                 raise RuntimeError("step cap")
             w = rng.choice([0.0, rng.uniform(-1.5, 1.5), rng.uniform(-1.5, 1.5)]) if not intraday else rng.choice([-1, 1]) * rng.uniform(0.3, 1.5)
             a = np.array([w] + ([rng.uniform(-0.3, 0.5)] if etf is not None else []))
+            if other is not None and not other_done and rng.random() < 0.7:
+                other_done = other.step(np.array([rng.uniform(-1, 1)]))[2]
             h_before = env.broker.holdings_quantity
             o, r, done, info = env.step(a)
             k += 1
